@@ -452,8 +452,11 @@ def rEx (d : Backend) : Ex → Pieces
   | .value v => [.p v]
   | .values vs => [S "("] ++ rVals true vs ++ [S ")"]
   | .cust s => [.raw s.toList]
-  -- the empty raw piece writes nothing; it marks the expansion as caller-supplied text
-  | .custWith t vals => .raw [] :: rTemplate d t (rExEach d vals)
+  -- the empty raw piece writes nothing; it marks an expansion about which nothing is claimed (a template
+  -- that is not lexically safe on its own, `Template.ok`)
+  | .custWith t vals =>
+    (if Template.ok (mark d) (numbered d) Char.isAlpha t.toList vals.length then [] else [.raw []]) ++
+      rTemplate d t (rExEach d vals)
   | .keyword k => rKw k
   | .asEnum ty e =>
     match d with
